@@ -31,6 +31,7 @@ fn run_prop(id: &str, tier: Tier) -> Option<Report> {
         "C12" => props::c12::run(tier),
         "C07" => props::c07::run(tier),
         "C13" => props::c13::run(tier),
+        "C11" => props::c11::run(tier),
         _ => return None,
     })
 }
@@ -62,6 +63,7 @@ fn replay_case(case: &Value) -> Option<(bool, String)> {
         "c12" | "c12float" => props::c12::replay(case),
         "c07geom" | "c07enc" | "c07curve" | "c07special" => props::c07::replay(case),
         "c13cube" | "c13strat" | "c13stratcase" | "c13unit" => props::c13::replay(case),
+        "c11dec" | "c11float" | "c11enc" => props::c11::replay(case),
         _ => return None,
     })
 }
